@@ -71,6 +71,7 @@ func runC20(w *World, r *Report) {
 	c20IndexGuard(w, r)
 	c20ValidateLast(w, r)
 	c20DecodePtr(w, r)
+	c20RegularOnly(w, r)
 }
 
 func c20Scope(w *World, r *Report) (map[*ssa.Function]bool, map[*ssa.Function]bool) {
